@@ -37,6 +37,8 @@ ASSUMPTIONS = [
     'singular matrices in the generated histories have a zero row or a zero column (explicit zeros or entries removed), so that every '
     'LU variant meets an exactly zero pivot; general rank-deficient matrices are NOT generated: UMFPACK was observed to return '
     '1e16-sized vectors for a 4x4 matrix with two equal rows (rounding hides the zero pivot) - floating-point residue',
+    'SciPy spsolve (SpSolve.linsolve) on a singular matrix returns NaN or raises RuntimeError from inside SuperLU depending on the '
+    'matrix; both count as the outcome `fail` (the model says NaN)',
     'bit-identical repetition, agreement "to solver precision" across back-ends and numba are tested (numba is not installed), not proved',
 ]
 CORPUS = os.path.join(C.ROOT, 'corpus', 'c16')
@@ -208,6 +210,14 @@ def run_streams(streams, procs=12, batch=10):
     return [o for b in res for o in b]
 
 
+def canon(lib, op, word):
+    """scipy.sparse.linalg.spsolve on a singular matrix returns NaN (MatrixRankWarning) or raises RuntimeError from inside
+    SuperLU ('failed to factorize matrix ... dsnode_bmod.c'), depending on the matrix: one outcome `fail` (model: NaN)"""
+    if lib == 'spsolve' and op[0] == 'l' and word.split('|')[1] in ('nan', 'raise'):
+        return 'Q|fail'
+    return word
+
+
 def nontrivial(st):
     used = set(o[1] for o in st['ops'] if o[0] in 'sl')
     return len(used) >= 2
@@ -225,7 +235,8 @@ def check_streams(ctx, streams, label='solver-cache'):
     outs = ctx.driver.ask(lines)
     fails = []
     for (st, obs, words, und), out in zip(keep, outs):
-        model = out.split(' ')[:len(words)]
+        model = [canon(st['lib'], op, w) for op, w in zip(st['ops'], out.split(' ')[:len(words)])]
+        words = [canon(st['lib'], op, w) for op, w in zip(st['ops'], words)]
         ctx.traces += 1
         case = {k: st[k] for k in ('lib', 'n', 'mats', 'rhs', 'ops')}
         ctx.case(json.dumps(case, sort_keys=True) if nontrivial(st) else None,
@@ -412,7 +423,7 @@ def routine_cfgs(ctx):
         rest = [c for c in allc if c not in cfgs]
         rng.shuffle(rest)
         for lib in LIBS:
-            cfgs += [c for c in rest if c['lib'] == lib][:5]
+            cfgs += [c for c in rest if c['lib'] == lib][:3]
     cfgs = [dict(c) for c in cfgs]
     # time-domain runs: one case, every library (+ every linsolve / honest variant in the thorough tier)
     tcases = ['kundur/kundur_full.xlsx', 'ieee14/ieee14_full.xlsx']
@@ -565,7 +576,7 @@ def run(ctx):
     streams = corpus_streams()
     ctx.count('corpus', len(streams))
     import time
-    n = ctx.n(1200, 12000)
+    n = ctx.n(900, 12000)
     streams += [gen_stream(ctx.rng) for _ in range(n)]
     t0 = time.time()
     check_streams(ctx, streams)
